@@ -1,5 +1,5 @@
-(* SortValues.Less is a strict weak order on comparable key columns: all-integer, all-datetime or all
-   (non-numeric) text columns, with NULLs anywhere, for every direction and NULL position and any
+(* SortValues.Less is a strict weak order on comparable key columns: all-integer, all-datetime, all
+   (non-numeric) text and (Proofs/OrderNum.v) numeric columns mixing integers up to 2^53 with finite floats, with NULLs anywhere, for every direction and NULL position and any
    number of keys.  This discharges the hypotheses of C07_order_by_has_no_inversion for such keys. *)
 From Coq Require Import ZArith NArith List Bool Lia Floats Sorted.
 Require Import Csvq.Model.Base Csvq.Model.Value Csvq.Model.Key Csvq.Model.SortVal.
@@ -96,22 +96,89 @@ Proof.
 Qed.
 
 (* ---- one key ---------------------------------------------------------------------------------------- *)
-Inductive kclass := KCInt | KCDt | KCStr.
-Definition class_ty (c : kclass) : svty := match c with KCInt => TInt | KCDt => TDt | KCStr => TStr end.
+Lemma cmp_ok_weaken {A} (dom dom' : A -> Prop) cmp : (forall a, dom' a -> dom a) -> cmp_ok dom cmp -> cmp_ok dom' cmp.
+Proof.
+  intros W H. split.
+  - intros a b Ha Hb. apply (c_anti dom cmp H); auto.
+  - intros a b c Ha Hb Hc. apply (c_eq_l dom cmp H); auto.
+  - intros a b c Ha Hb Hc. apply (c_lt_trans dom cmp H); auto.
+Qed.
 
-(* a sort value of a comparable column: NULL or of the column's type; not under --strict-equal *)
-Definition in_class (c : kclass) (s : sortval) : Prop :=
-  skey s = None /\ (sty s = TNull \/ sty s = class_ty c).
+(* a class of mutually comparable sort values: which values a key column of the class may hold (NULL
+   always among them), the three-way order of its non-NULL members, and the fact that SortValue.Less
+   (sv_less1) decides exactly that order and cannot decide when a NULL is involved *)
+Record kclass := mkKC {
+  in_class : sortval -> Prop;
+  base_cmp : sortval -> sortval -> comparison;
+  kc_ok : cmp_ok (fun s => in_class s /\ is_tnull s = false) base_cmp;
+  kc_step : forall a b, in_class a -> in_class b -> is_tnull a = false -> is_tnull b = false ->
+    sv_less1 a b = match base_cmp a b with Lt => TT | Gt => TF | Eq => TU end;
+  kc_null : forall a b, in_class a -> in_class b -> is_tnull a = true \/ is_tnull b = true -> sv_less1 a b = TU
+}.
 
-Definition base_cmp (c : kclass) (a b : sortval) : comparison :=
-  match c with
-  | KCInt => Z.compare (sint a) (sint b)
-  | KCDt => Z.compare (sdt a) (sdt b)
-  | KCStr => str_cmp (stxt a) (stxt b)
-  end.
+(* NULL or of the given type; not under --strict-equal *)
+Definition typed (t : svty) (s : sortval) : Prop := skey s = None /\ (sty s = TNull \/ sty s = t).
 
-Lemma base_cmp_ok c : cmp_ok (fun _ => True) (base_cmp c).
-Proof. destruct c; [apply (Zcompare_ok sint) | apply (Zcompare_ok sdt) | apply (strcompare_ok stxt)]. Qed.
+Lemma typed_null_undecided t a b : typed t a -> typed t b -> is_tnull a = true \/ is_tnull b = true -> sv_less1 a b = TU.
+Proof.
+  intros [Ka Ha] [Kb Hb] N. unfold sv_less1, is_tnull, is_kstr in *. rewrite Ka, Kb. simpl.
+  destruct Ha as [Ha|Ha], Hb as [Hb|Hb]; rewrite Ha, Hb in *; destruct t; simpl in *; try reflexivity;
+    destruct N; discriminate.
+Qed.
+
+Lemma str_eqb_cmp a b : str_eqb a b = match str_cmp a b with Eq => true | _ => false end.
+Proof.
+  revert b. induction a as [|x a IH]; destruct b as [|y b]; simpl; try reflexivity.
+  destruct (N.compare_spec x y) as [E|L|G].
+  - subst. rewrite N.eqb_refl. apply IH.
+  - apply N.lt_neq in L. apply N.eqb_neq in L. rewrite L. reflexivity.
+  - apply N.lt_neq in G. apply N.neq_sym in G. apply N.eqb_neq in G. rewrite G. reflexivity.
+Qed.
+
+Lemma zcmp_step x y : (if x =? y then TU else of_bool (x <? y)) = match Z.compare x y with Lt => TT | Gt => TF | Eq => TU end.
+Proof.
+  destruct (Z.compare_spec x y) as [E|L|G].
+  - rewrite E, Z.eqb_refl. reflexivity.
+  - destruct (Z.eqb_spec x y); [lia|]. destruct (Z.ltb_spec x y); [reflexivity|lia].
+  - destruct (Z.eqb_spec x y); [lia|]. destruct (Z.ltb_spec x y); [lia|reflexivity].
+Qed.
+
+Lemma typed_nonnull t s : typed t s -> is_tnull s = false -> skey s = None /\ sty s = t.
+Proof. intros [K [H|H]] N; [unfold is_tnull in N; rewrite H in N; discriminate|]. split; assumption. Qed.
+
+(* all-integer columns *)
+Lemma int_step a b : typed TInt a -> typed TInt b -> is_tnull a = false -> is_tnull b = false ->
+  sv_less1 a b = match Z.compare (sint a) (sint b) with Lt => TT | Gt => TF | Eq => TU end.
+Proof.
+  intros Ha Hb Na Nb. destruct (typed_nonnull _ _ Ha Na) as [Ka Ta], (typed_nonnull _ _ Hb Nb) as [Kb Tb].
+  unfold sv_less1, is_kstr. rewrite Ka, Kb, Ta, Tb. simpl. apply zcmp_step.
+Qed.
+Definition KCInt : kclass :=
+  mkKC (typed TInt) (fun a b => Z.compare (sint a) (sint b))
+       (cmp_ok_weaken (fun _ => True) _ _ (fun _ _ => I) (Zcompare_ok sint)) int_step (typed_null_undecided TInt).
+
+(* all-datetime columns *)
+Lemma dt_step a b : typed TDt a -> typed TDt b -> is_tnull a = false -> is_tnull b = false ->
+  sv_less1 a b = match Z.compare (sdt a) (sdt b) with Lt => TT | Gt => TF | Eq => TU end.
+Proof.
+  intros Ha Hb Na Nb. destruct (typed_nonnull _ _ Ha Na) as [Ka Ta], (typed_nonnull _ _ Hb Nb) as [Kb Tb].
+  unfold sv_less1, is_kstr. rewrite Ka, Kb, Ta, Tb. simpl. apply zcmp_step.
+Qed.
+Definition KCDt : kclass :=
+  mkKC (typed TDt) (fun a b => Z.compare (sdt a) (sdt b))
+       (cmp_ok_weaken (fun _ => True) _ _ (fun _ _ => I) (Zcompare_ok sdt)) dt_step (typed_null_undecided TDt).
+
+(* all-text columns (text that is neither numeric, datetime-like nor boolean-like) *)
+Lemma str_step a b : typed TStr a -> typed TStr b -> is_tnull a = false -> is_tnull b = false ->
+  sv_less1 a b = match str_cmp (stxt a) (stxt b) with Lt => TT | Gt => TF | Eq => TU end.
+Proof.
+  intros Ha Hb Na Nb. destruct (typed_nonnull _ _ Ha Na) as [Ka Ta], (typed_nonnull _ _ Hb Nb) as [Kb Tb].
+  unfold sv_less1, is_kstr. rewrite Ka, Kb, Ta, Tb. simpl. rewrite str_eqb_cmp. unfold str_ltb.
+  destruct (str_cmp (stxt a) (stxt b)); reflexivity.
+Qed.
+Definition KCStr : kclass :=
+  mkKC (typed TStr) (fun a b => str_cmp (stxt a) (stxt b))
+       (cmp_ok_weaken (fun _ => True) _ _ (fun _ _ => I) (strcompare_ok stxt)) str_step (typed_null_undecided TStr).
 
 (* the three-way reading of one ORDER BY key: NULLs first or last, then the base order in the key's
    direction *)
@@ -123,26 +190,20 @@ Definition key_cmp (c : kclass) (dn : dir * nullpos) (a b : sortval) : compariso
   | false, false => match fst dn with Asc => base_cmp c a b | Desc => CompOpp (base_cmp c a b) end
   end.
 
-Lemma key_cmp_ok c dn : cmp_ok (fun _ => True) (key_cmp c dn).
+Lemma key_cmp_ok c dn : cmp_ok (in_class c) (key_cmp c dn).
 Proof.
-  assert (B : cmp_ok (fun _ => True) (fun a b => match fst dn with Asc => base_cmp c a b | Desc => CompOpp (base_cmp c a b) end)).
-  { destruct (fst dn); [apply base_cmp_ok | apply cmp_ok_opp; apply base_cmp_ok]. }
+  assert (B : cmp_ok (fun s => in_class c s /\ is_tnull s = false)
+                     (fun a b => match fst dn with Asc => base_cmp c a b | Desc => CompOpp (base_cmp c a b) end)).
+  { destruct (fst dn); [apply kc_ok | apply cmp_ok_opp; apply kc_ok]. }
   split.
-  - intros a b _ _. unfold key_cmp. destruct (is_tnull a), (is_tnull b), (snd dn); try reflexivity;
-      apply (c_anti _ _ B a b I I).
-  - intros a b x _ _ _. unfold key_cmp. destruct (is_tnull a), (is_tnull b), (is_tnull x), (snd dn); intros E; try reflexivity; try discriminate;
-      apply (c_eq_l _ _ B a b x I I I E).
-  - intros a b x _ _ _. unfold key_cmp. destruct (is_tnull a), (is_tnull b), (is_tnull x), (snd dn); intros E1 E2; try reflexivity; try discriminate;
-      apply (c_lt_trans _ _ B a b x I I I E1 E2).
-Qed.
-
-Lemma str_eqb_cmp a b : str_eqb a b = match str_cmp a b with Eq => true | _ => false end.
-Proof.
-  revert b. induction a as [|x a IH]; destruct b as [|y b]; simpl; try reflexivity.
-  destruct (N.compare_spec x y) as [E|L|G].
-  - subst. rewrite N.eqb_refl. apply IH.
-  - apply N.lt_neq in L. apply N.eqb_neq in L. rewrite L. reflexivity.
-  - apply N.lt_neq in G. apply N.neq_sym in G. apply N.eqb_neq in G. rewrite G. reflexivity.
+  - intros a b Ha Hb. unfold key_cmp. destruct (is_tnull a) eqn:Na, (is_tnull b) eqn:Nb, (snd dn); try reflexivity;
+      apply (c_anti _ _ B a b (conj Ha Na) (conj Hb Nb)).
+  - intros a b x Ha Hb Hx. unfold key_cmp.
+    destruct (is_tnull a) eqn:Na, (is_tnull b) eqn:Nb, (is_tnull x) eqn:Nx, (snd dn); intros E; try reflexivity; try discriminate;
+      apply (c_eq_l _ _ B a b x (conj Ha Na) (conj Hb Nb) (conj Hx Nx) E).
+  - intros a b x Ha Hb Hx. unfold key_cmp.
+    destruct (is_tnull a) eqn:Na, (is_tnull b) eqn:Nb, (is_tnull x) eqn:Nx, (snd dn); intros E1 E2; try reflexivity; try discriminate;
+      apply (c_lt_trans _ _ B a b x (conj Ha Na) (conj Hb Nb) (conj Hx Nx) E1 E2).
 Qed.
 
 (* the code's per-key decision (sv_less1 + the NULL position rules of SortValues.Less) is exactly the
@@ -156,18 +217,12 @@ Lemma less_step_is_key_cmp c dn a b (k : bool) : in_class c a -> in_class c b ->
           else k
   end = match key_cmp c dn a b with Lt => true | Gt => false | Eq => k end.
 Proof.
-  intros [Ka Ha] [Kb Hb]. unfold sv_less1, key_cmp, is_tnull, is_kstr. rewrite Ka, Kb. simpl.
-  destruct Ha as [Ha|Ha], Hb as [Hb|Hb]; rewrite Ha, Hb; destruct c, dn as [[|] [|]]; simpl; try reflexivity;
-    unfold base_cmp;
-    try (destruct (Z.compare_spec (sint a) (sint b)) as [E|L|G];
-         [rewrite E, Z.eqb_refl; reflexivity
-         | destruct (Z.eqb_spec (sint a) (sint b)); [lia|]; destruct (Z.ltb_spec (sint a) (sint b)); [reflexivity|lia]
-         | destruct (Z.eqb_spec (sint a) (sint b)); [lia|]; destruct (Z.ltb_spec (sint a) (sint b)); [lia|reflexivity]]);
-    try (destruct (Z.compare_spec (sdt a) (sdt b)) as [E|L|G];
-         [rewrite E, Z.eqb_refl; reflexivity
-         | destruct (Z.eqb_spec (sdt a) (sdt b)); [lia|]; destruct (Z.ltb_spec (sdt a) (sdt b)); [reflexivity|lia]
-         | destruct (Z.eqb_spec (sdt a) (sdt b)); [lia|]; destruct (Z.ltb_spec (sdt a) (sdt b)); [lia|reflexivity]]);
-    try (rewrite str_eqb_cmp; unfold str_ltb; destruct (str_cmp (stxt a) (stxt b)); reflexivity).
+  intros Ha Hb. unfold key_cmp.
+  destruct (is_tnull a) eqn:Na, (is_tnull b) eqn:Nb.
+  - rewrite (kc_null c a b Ha Hb (or_introl Na)). reflexivity.
+  - rewrite (kc_null c a b Ha Hb (or_introl Na)). simpl. destruct (snd dn); reflexivity.
+  - rewrite (kc_null c a b Ha Hb (or_intror Nb)). simpl. destruct (snd dn); reflexivity.
+  - rewrite (kc_step c a b Ha Hb Na Nb). destruct (base_cmp c a b), (fst dn); reflexivity.
 Qed.
 
 (* ---- key tuples -------------------------------------------------------------------------------------- *)
@@ -207,23 +262,23 @@ Proof.
   - destruct ds as [|dn ds]; [discriminate|]. simpl in Hl. injection Hl as Hl.
     specialize (IH ds Hl). pose proof (key_cmp_ok c dn) as K.
     split.
-    + intros [|x a] [|y b] Ha Hb; simpl in Ha, Hb; try contradiction. destruct Ha as [_ Ha], Hb as [_ Hb].
-      cbn [lex_cmp]. rewrite (c_anti _ _ K x y I I).
+    + intros [|x a] [|y b] Ha Hb; simpl in Ha, Hb; try contradiction. destruct Ha as [Hx Ha], Hb as [Hy Hb].
+      cbn [lex_cmp]. rewrite (c_anti _ _ K x y Hx Hy).
       destruct (key_cmp c dn x y); simpl; try reflexivity. apply (c_anti _ _ IH a b Ha Hb).
     + intros [|x a] [|y b] [|z e] Ha Hb He; simpl in Ha, Hb, He; try contradiction.
-      destruct Ha as [_ Ha], Hb as [_ Hb], He as [_ He]. cbn [lex_cmp]. intros E.
+      destruct Ha as [Hx Ha], Hb as [Hy Hb], He as [Hz He]. cbn [lex_cmp]. intros E.
       destruct (key_cmp c dn x y) eqn:Kxy; try discriminate.
-      rewrite (c_eq_l _ _ K x y z I I I Kxy).
+      rewrite (c_eq_l _ _ K x y z Hx Hy Hz Kxy).
       destruct (key_cmp c dn y z); try reflexivity. apply (c_eq_l _ _ IH a b e Ha Hb He E).
     + intros [|x a] [|y b] [|z e] Ha Hb He; simpl in Ha, Hb, He; try contradiction.
-      destruct Ha as [_ Ha], Hb as [_ Hb], He as [_ He]. cbn [lex_cmp]. intros E1 E2.
+      destruct Ha as [Hx Ha], Hb as [Hy Hb], He as [Hz He]. cbn [lex_cmp]. intros E1 E2.
       destruct (key_cmp c dn x y) eqn:Kxy; try discriminate.
-      * rewrite (c_eq_l _ _ K x y z I I I Kxy).
+      * rewrite (c_eq_l _ _ K x y z Hx Hy Hz Kxy).
         destruct (key_cmp c dn y z) eqn:Kyz; try discriminate; try reflexivity.
         apply (c_lt_trans _ _ IH a b e Ha Hb He E1 E2).
       * destruct (key_cmp c dn y z) eqn:Kyz; try discriminate.
-        -- rewrite <- (cmp_eq_r _ _ K x y z I I I Kyz). rewrite Kxy. reflexivity.
-        -- rewrite (c_lt_trans _ _ K x y z I I I Kxy Kyz). reflexivity.
+        -- rewrite <- (cmp_eq_r _ _ K x y z Hx Hy Hz Kyz). rewrite Kxy. reflexivity.
+        -- rewrite (c_lt_trans _ _ K x y z Hx Hy Hz Kxy Kyz). reflexivity.
 Qed.
 
 (* ---- the comparator is a strict weak order on comparable keys -------------------------------------- *)
